@@ -33,6 +33,24 @@ pub fn load_line(rng: &mut Rng) -> String {
 /// "state can be read" probe; "panic" answers are violations unless the model predicts them.
 pub fn run_c13(out: &mut Out, seed: u64, thorough: bool) {
     let mut rng = Rng::new(seed);
+    // every byte written to each board port / register of the I/O page, then every I/O address read back
+    // (values computed from a written byte - fan period, DAC voltages, timer divisors - at their extremes)
+    {
+        let mut s = Sess::new();
+        for port in 0xF0..=0xFFu32 {
+            for v in 0..=255u32 {
+                if !thorough && port > 0xF3 && v % 16 != 0 && v != 255 {
+                    continue;
+                }
+                run_line(out, &mut s, "new");
+                run_line(out, &mut s, &format!("busw {} {}", port, v));
+                for a in 0xF0..=0xFFu32 {
+                    run_line(out, &mut s, &format!("busr {}", a));
+                }
+                run_line(out, &mut s, "d");
+            }
+        }
+    }
     let cases = if thorough { 3000 } else { 300 };
     for c in 0..cases {
         let mut s = Sess::new();
@@ -259,7 +277,7 @@ pub fn run_c07(out: &mut Out, seed: u64, thorough: bool) {
         let hist = 20 + rng.below(200);
         for i in 0..hist {
             let line = match rng.below(20) {
-                0 => load_line(&mut rng),
+                0 => format!("spec.{}", load_line(&mut rng)),
                 1 => "cpureset".to_string(),
                 2 => "masterreset".to_string(),
                 3 | 4 | 5 | 6 => stimulus(&mut rng),
@@ -290,6 +308,12 @@ pub fn run_c07(out: &mut Out, seed: u64, thorough: bool) {
                 out.sample(l.clone());
             }
             run_line(out, &mut s, &l);
+        }
+        // a program that sets no program size / no stack size after one that set both, and the other way round
+        for (a, b) in [(("48", "7"), ("N", "N")), (("N", "N"), ("32", "A")), (("64", "200"), ("16", "N")), (("0", "A"), ("N", "3"))] {
+            run_line(out, &mut s, &format!("spec.load {} {} 0202020201", a.0, a.1));
+            run_line(out, &mut s, &format!("spec.load {} {} 02020201", b.0, b.1));
+            run_line(out, &mut s, "d");
         }
         // model correspondence of load and resets themselves
         run_line(out, &mut s, &load_line(&mut rng));
